@@ -1321,7 +1321,7 @@ def check(ctx) -> Result:
         for c in CORPUS_ORDERS:
             check_nest_orders(ctx, res, c)
             res.tally('corpus')
-        for _ in range(ctx.n(10, 150)):
+        for _ in range(ctx.n(10, 90)):
             for fam in ('nested', 'nestedmu', 'nested', 'cnl', 'cnlmu'):
                 check_nest_orders(ctx, res, gen_structure(rng, fam))
             if len(res.violations) > 20:
